@@ -152,13 +152,15 @@ def run(w, n, maxn):
             break
         count += 1
         # fresh sources
-        sh("rsync -a --exclude target --exclude .git %s/ %s/" % (REPO, repo))
+        sh("rsync -rl --checksum --exclude target --exclude .git %s/ %s/" % (REPO, repo))
         path = os.path.join(repo, c["file"])
         lines = open(path).read().split("\n")
         if lines[c["line"] - 1].strip() != c["old"]:
             continue
         lines[c["line"] - 1] = c["_new_line"]
         open(path, "w").write("\n".join(lines))
+        # cargo decides freshness by mtime: rsync without -t gives changed files the current time,
+        # so both the mutation and its later restoration are noticed
         rec = {k2: v for k2, v in c.items() if not k2.startswith("_")}
         t0 = time.time()
         rc, out = sh("cargo test --workspace --no-fail-fast --offline 2>&1", cwd=repo, env=env, timeout=1800)
